@@ -4,15 +4,44 @@ import MoneroModel.Drv.C15
 import MoneroModel.Drv.C16
 import MoneroModel.Model.Block
 import MoneroModel.Model.Panics
+import MoneroModel.Model.Ledger
 open Monero
 /-! Driver for C04: `c04_ops <entry> <hex>` → `ok` | `err`: does the entry point's MODEL accept the input? The models are total
 functions, so the model never answers "panic", "abort" or "timeout"; any such answer of the implementation is a
-mismatch. Entries without a model have model side `-` (they are still run, isolated, by the harness). -/
+mismatch. Entries without a model have model side `-` (they are still run, isolated, by the harness).
+`c04_dec …`: the public decoders with caller-chosen `usize` counts (the prunable one through the panic-explicit model).
+`c04_ledger …`: the MEASURED peak heap of a parse-only run of the real decoder (a number in the line) is held to the peak of the
+allocation ledger (`(rtx b).peak` … of Model/Ledger.lean, the object of `C04_alloc_bound_*`) plus a stated slack. -/
 namespace Drv
 def okE (b : Bool) : String := if b then "ok" else "err"
 def validUtf8 (b : Bytes) : Bool := (String.fromUTF8? (ByteArray.mk b.toArray)).isSome
 
+/-- the ledger's peak for an entry point on `b` -/
+def ledgerPeak (entry : String) (b : Bytes) : Option Nat :=
+  match entry with
+  | "tx" => some (rtx b).peak
+  | "block" => some (rblock b).peak
+  | "prefix" => some (rprefix b).peak
+  | "varint" => some (rvarint b).peak
+  | _ => none
+def ledgerAnswer (measured peak slack : Nat) : String :=
+  if measured ≤ peak + slack then "ok" else s!"LEDGER-EXCEEDED ledger={peak} slack={slack}"
+
 def stepC04 : Step
+  -- `c04_ledger big <family> <n> <measured>`: the input is `0xff^n`, built (in the harness child, and here) from (family, n); the
+  -- measurement covers the whole child operation, so the slack is the input buffer itself plus 1 KiB
+  | ["c04_ledger", "big", fam, n, measured] =>
+    match n.toNat?, measured.toNat? with
+    | some n, some m =>
+      let b : Bytes := List.replicate n 0xff
+      let entry := match fam with | "varint_ff" => "varint" | "tx_ff" => "tx" | "block_ff" => "block" | _ => "?"
+      (ledgerPeak entry b).map fun p => (ledgerAnswer m p (n + 1024), "-")
+    | _, _ => none
+  -- `c04_ledger hex <entry> <measured> <hex>`: the measurement brackets the `deserialize` call alone; slack 256 bytes (error values)
+  | ["c04_ledger", "hex", entry, measured, h] =>
+    match measured.toNat? with
+    | some m => (ledgerPeak entry (Hex.decode h)).map fun p => (ledgerAnswer m p 256, "-")
+    | none => none
   | ["c04_ops", entry, h] =>
     let b := Hex.decode h
     let m : Option String := match entry with
@@ -20,6 +49,7 @@ def stepC04 : Step
       | "block" => some (okE (strict block b).isSome)
       | "prefix" => some (okE (strict prefix' b).isSome)
       | "extra" => some (okE (!(Extra.tryParse C16.edValid b).err))
+      | "subfield" => some (okE (Extra.subFieldStrict C16.edValid b).isSome)
       | "address_bytes" => some (okE (Address.fromBytes C12.H C12.validKey b).isSome)
       | "address_str" => some (okE (validUtf8 b && (Address.fromStr C12.H C12.validKey b).isSome))
       | "address_hex" => some (okE (Address.fromHex C12.H C12.validKey b).isSome)
@@ -38,8 +68,8 @@ def stepC04 : Step
       | "hash_str" => some "-"
       | _ => none
     m.map fun x => (x, "-")
-  -- the public decoders with `usize` parameters: the PANIC-EXPLICIT models answer (`1 + inputs` is a checked usize addition)
-  -- large inputs built inside the harness child: isolation checks only (no panic / abort / timeout, heap bound), no model side
+  -- large inputs built inside the harness child: isolation checks only (no panic / abort / timeout, heap bound); the `*_ff` families
+  -- are additionally held to the ledger by a `c04_ledger big` line
   | ["c04_big", _, _, _] => some ("-", "-")
   | ["c04_dec", "base", i, o, h] =>
     match i.toNat?, o.toNat? with
@@ -48,6 +78,10 @@ def stepC04 : Step
   | ["c04_dec", "prunable", ty, i, o, mx, h] =>
     match ty.toNat?, i.toNat?, o.toNat?, mx.toNat? with
     | some ty, some i, some o, some mx =>
+      -- the panic-explicit model answers. Since the fix commit the column count is `inputs.saturating_add(1)` and `prunableP` has no
+      -- panic outcome on any argument (`C04_no_panic_prunable`), so the `MODEL-PANIC` arm is dead on the present tree; it is kept
+      -- because the model's column count follows the operator read from the source (a source that goes back to `1 + inputs`
+      -- makes the model panic at `inputs = usize::MAX`, where the library panics too)
       some ((match Panics.prunableP ty i o mx (Hex.decode h) with | .ok _ => "ok" | .err => "err" | .panic s => "MODEL-PANIC " ++ s), "-")
     | _, _, _, _ => none
   | ["c04_dec", "sized", el, n, h] =>
